@@ -104,6 +104,15 @@ pub enum St {
     DetachDelete { uid: i64 },
     Delete { uid: i64 },
     SetAllProp { val: i64 },
+    /// SET r += {w: null, z: 1}: a null value removes the key
+    SetRelMapMerge { a: i64, b: i64 },
+    /// SET r = {z: 2}
+    SetRelMapReplace { a: i64, b: i64 },
+    RemoveRelProp { a: i64, b: i64 },
+    /// MERGE (a)-[:R]-(b): matches a relationship in EITHER direction, creates a->b otherwise
+    MergeRelUndirected { a: i64, b: i64 },
+    /// the same (start, type, end) twice in one CREATE
+    CreateRelTwice { a: i64, b: i64 },
 }
 
 pub struct Effect {
@@ -148,6 +157,11 @@ impl St {
             St::DetachDelete { uid } => format!("MATCH (x {{uid: {uid}}}) DETACH DELETE x"),
             St::Delete { uid } => format!("MATCH (x {{uid: {uid}}}) DELETE x"),
             St::SetAllProp { val } => format!("MATCH (x) SET x.v = {val}"),
+            St::SetRelMapMerge { a, b } => format!("MATCH (a {{uid: {a}}})-[r:R]->(b {{uid: {b}}}) SET r += {{w: null, z: 1}}"),
+            St::SetRelMapReplace { a, b } => format!("MATCH (a {{uid: {a}}})-[r:R]->(b {{uid: {b}}}) SET r = {{z: 2}}"),
+            St::RemoveRelProp { a, b } => format!("MATCH (a {{uid: {a}}})-[r:R]->(b {{uid: {b}}}) REMOVE r.w"),
+            St::MergeRelUndirected { a, b } => format!("MATCH (a {{uid: {a}}}), (b {{uid: {b}}}) MERGE (a)-[:R]-(b)"),
+            St::CreateRelTwice { a, b } => format!("MATCH (a {{uid: {a}}}), (b {{uid: {b}}}) CREATE (a)-[:T]->(b), (a)-[:T]->(b)"),
         }
     }
     pub fn params(&self) -> (Params, Option<String>) {
@@ -169,7 +183,10 @@ impl St {
             St::MatchCreateRel { a, b, ty } => m.nodes.contains_key(a) && m.nodes.contains_key(b) && !m.has_rel(*a, ty, *b),
             St::MergeNode { uid, .. } => m.nodes.get(uid).is_none_or(|n| n.labels.contains("A")),
             St::MergeRel { a, b } => m.nodes.contains_key(a) && m.nodes.contains_key(b),
-            St::SetRelProp { a, b, .. } | St::DeleteRel { a, b } => m.has_rel(*a, "R", *b),
+            St::SetRelProp { a, b, .. } | St::DeleteRel { a, b } | St::SetRelMapMerge { a, b } | St::SetRelMapReplace { a, b } | St::RemoveRelProp { a, b } => m.has_rel(*a, "R", *b),
+            St::MergeRelUndirected { a, b } => m.nodes.contains_key(a) && m.nodes.contains_key(b),
+            // parallel relationships with the same key are a spec-ambiguous corner of this engine: only from a clean slate
+            St::CreateRelTwice { a, b } => m.nodes.contains_key(a) && m.nodes.contains_key(b) && !m.has_rel(*a, "T", *b),
             St::SetAllProp { .. } => !m.nodes.is_empty(),
             St::SetProp { uid, .. } | St::SetMapReplace { uid } | St::SetMapMerge { uid } | St::SetLabel { uid, .. } | St::RemoveLabel { uid, .. } | St::RemoveProp { uid } | St::DetachDelete { uid } | St::Delete { uid } => m.nodes.contains_key(uid),
         }
@@ -267,6 +284,32 @@ impl St {
                     n.props.insert("v".into(), CV::Int(*val));
                 }
             }
+            St::SetRelMapMerge { a, b } => {
+                for r in m.rels.iter_mut().filter(|r| r.src == *a && r.ty == "R" && r.dst == *b) {
+                    r.props.remove("w");
+                    r.props.insert("z".into(), CV::Int(1));
+                }
+            }
+            St::SetRelMapReplace { a, b } => {
+                for r in m.rels.iter_mut().filter(|r| r.src == *a && r.ty == "R" && r.dst == *b) {
+                    r.props = BTreeMap::from([("z".to_string(), CV::Int(2))]);
+                }
+            }
+            St::RemoveRelProp { a, b } => {
+                for r in m.rels.iter_mut().filter(|r| r.src == *a && r.ty == "R" && r.dst == *b) {
+                    r.props.remove("w");
+                }
+            }
+            St::MergeRelUndirected { a, b } => {
+                if !m.has_rel(*a, "R", *b) && !m.has_rel(*b, "R", *a) {
+                    m.rels.push(URel { src: *a, ty: "R".into(), dst: *b, props: BTreeMap::new() });
+                }
+            }
+            St::CreateRelTwice { a, b } => {
+                for _ in 0..2 {
+                    m.rels.push(URel { src: *a, ty: "T".into(), dst: *b, props: BTreeMap::new() });
+                }
+            }
         }
         m.rels.sort();
         Effect { fails, changed: *m != before }
@@ -302,6 +345,12 @@ pub fn statements() -> Vec<St> {
         St::Delete { uid: 2 },
         St::Delete { uid: 1 },
         St::SetAllProp { val: 9 },
+        St::SetRelMapMerge { a: 1, b: 2 },
+        St::SetRelMapReplace { a: 1, b: 2 },
+        St::RemoveRelProp { a: 1, b: 2 },
+        St::MergeRelUndirected { a: 1, b: 2 },
+        St::MergeRelUndirected { a: 2, b: 1 },
+        St::CreateRelTwice { a: 1, b: 2 },
     ];
     v.dedup();
     v
@@ -547,41 +596,92 @@ pub fn c12(tier: Tier) -> i32 {
 // C13 A failed statement has no effect
 // ---------------------------------------------------------------------------------------------
 
-fn failing_statements() -> Vec<(&'static str, String)> {
-    vec![
-        ("fail_row1_create", "UNWIND [1, 2, 3] AS i CREATE (:T {uid: 200 + i, b: toBoolean(i)})".into()),
-        ("fail_row3_create", "UNWIND [[1, true], [2, false], [3, 3]] AS p CREATE (:T {uid: 300 + p[0], b: toBoolean(p[1])})".into()),
-        ("fail_row2_create", "UNWIND [[1, 'true'], [2, 2], [3, 'false']] AS p CREATE (:T {uid: 400 + p[0], b: toBoolean(p[1])})".into()),
-        ("set_then_failing_projection", "MATCH (x {uid: 1}) SET x.v = 55 WITH x UNWIND [true, 1] AS i RETURN toBoolean(i)".into()),
-        ("create_then_failing_projection", "CREATE (n:T {uid: 500}) WITH n UNWIND [1] AS i RETURN toInteger([i])".into()),
-        ("set_label_then_fail", "MATCH (x {uid: 1}) SET x:Z WITH x RETURN toBoolean(x.uid)".into()),
-        ("delete_connected", "MATCH (x {uid: 1}) DELETE x".into()),
-        ("delete_second_connected", "MATCH (x) WITH x ORDER BY x.uid DESC DELETE x".into()),
-        ("syntax_error", "MATCH (x {uid: 1}) SET x.v = ".into()),
-        ("merge_then_fail", "MERGE (m:M {uid: 600}) WITH m RETURN toBoolean(m.uid)".into()),
-        ("remove_then_fail", "MATCH (x {uid: 2}) REMOVE x.v WITH x RETURN toBoolean(1)".into()),
-    ]
+fn failing_statements() -> Vec<(&'static str, String, Option<&'static str>)> {
+    let v: Vec<(&'static str, &str, Option<&'static str>)> = vec![
+        ("fail_row1_create", "UNWIND [1, 2, 3] AS i CREATE (:T {uid: 200 + i, b: toBoolean(i)})", None),
+        ("fail_row3_create", "UNWIND [[1, true], [2, false], [3, 3]] AS p CREATE (:T {uid: 300 + p[0], b: toBoolean(p[1])})", None),
+        ("fail_row2_create", "UNWIND [[1, 'true'], [2, 2], [3, 'false']] AS p CREATE (:T {uid: 400 + p[0], b: toBoolean(p[1])})", None),
+        ("set_then_failing_projection", "MATCH (x {uid: 1}) SET x.v = 55 WITH x UNWIND [true, 1] AS i RETURN toBoolean(i)", None),
+        ("create_then_failing_projection", "CREATE (n:T {uid: 500}) WITH n UNWIND [1] AS i RETURN toInteger([i])", None),
+        ("set_label_then_fail", "MATCH (x {uid: 1}) SET x:Z WITH x RETURN toBoolean(x.uid)", None),
+        ("delete_connected", "MATCH (x {uid: 1}) DELETE x", None),
+        ("delete_second_connected", "MATCH (x) WITH x ORDER BY x.uid DESC DELETE x", None),
+        ("syntax_error", "MATCH (x {uid: 1}) SET x.v = ", None),
+        ("merge_then_fail", "MERGE (m:M {uid: 600}) WITH m RETURN toBoolean(m.uid)", None),
+        ("remove_then_fail", "MATCH (x {uid: 2}) REMOVE x.v WITH x RETURN toBoolean(1)", None),
+        // statements that undo what an EARLIER statement of the same transaction did, then fail
+        ("set_label_A_then_fail", "MATCH (x {uid: 1}) SET x:A WITH x RETURN toBoolean(x.uid)", None),
+        ("remove_label_A_then_fail", "MATCH (x {uid: 1}) REMOVE x:A WITH x RETURN toBoolean(x.uid)", None),
+        ("remove_label_Z_then_fail", "MATCH (x {uid: 1}) REMOVE x:Z WITH x RETURN toBoolean(x.uid)", None),
+        ("remove_v_then_fail", "MATCH (x {uid: 1}) REMOVE x.v WITH x RETURN toBoolean(x.uid)", None),
+        ("create_rel_then_fail", "MATCH (a {uid: 1}), (b {uid: 2}) CREATE (a)-[:R]->(b) WITH a RETURN toBoolean(a.uid)", None),
+        ("delete_rel_then_fail", "MATCH (a {uid: 1})-[r]->(b) DELETE r WITH a RETURN toBoolean(a.uid)", None),
+        // run-time errors that the engine words as 'syntax error: ..' (bad SKIP / LIMIT parameter) after a write clause
+        ("set_then_negative_limit", "MATCH (x {uid: 1}) SET x.v = 56 WITH x LIMIT $k RETURN x.uid AS u", Some("{\"k\": -1}")),
+        ("create_then_bad_skip", "CREATE (n:T {uid: 501}) WITH n SKIP $k RETURN n.uid AS u", Some("{\"k\": \"a\"}")),
+        ("unwind_create_then_negative_skip", "UNWIND [1, 2] AS i CREATE (n:T {uid: 510 + i}) WITH n SKIP $k RETURN n.uid AS u", Some("{\"k\": -2}")),
+    ];
+    v.into_iter().map(|(a, b, c)| (a, b.to_string(), c)).collect()
+}
+
+fn params_of(js: Option<&str>) -> Params {
+    let mut p = Params::new();
+    if let Some(js) = js {
+        let v: serde_json::Value = serde_json::from_str(js).expect("params json");
+        for (k, x) in v.as_object().unwrap() {
+            let val = match x {
+                serde_json::Value::Number(n) => Value::Int(n.as_i64().unwrap()),
+                serde_json::Value::String(s) => Value::String(s.clone()),
+                _ => Value::Null,
+            };
+            p.insert(k.clone(), val);
+        }
+    }
+    p
 }
 
 pub fn c13(tier: Tier) -> i32 {
     let rep = Report::new("C13", tier);
-    rep.rule("11 failing write statements (type errors at row 1 / 2 / 3 of a multi-row CREATE, an update followed by a failing projection, refused deletes of connected nodes, syntax error, unknown function, MERGE / REMOVE followed by a failure) x all initial graphs of the scope x execution modes {Rust execute_mixed auto-commit, ndb_execute_write, inside ndb_begin_write..ndb_txn_commit alone, after a successful statement, before a successful statement, between two}; oracle: the statement reports an error and the final graph equals the graph produced by the same script without the failing statement; non-trivial = (statement, graph, mode) triples in which the statement would have changed the graph before failing");
+    rep.rule("20 failing write statements (type errors at row 1 / 2 / 3 of a multi-row CREATE, an update followed by a failing projection, refused deletes of connected nodes, a syntax error, MERGE / REMOVE / label and relationship changes followed by a failure - including changes that undo what an earlier statement of the transaction did - and bad SKIP / LIMIT parameters after a write clause) x all initial graphs of the scope x execution modes {Rust execute_mixed auto-commit, ndb_execute_write, inside ndb_begin_write..ndb_txn_commit: alone or after EACH of 7 successful statements (create node, remove / add a label, set a property, create / delete a relationship), each optionally followed by a successful statement}; oracle: the statement reports an error and the final graph equals the graph produced by the same script without the failing statement; non-trivial = (statement, graph, mode) triples in which the statement would have changed the graph before failing");
     let fails = failing_statements();
     let inits: Vec<UModel> = initial_models().into_iter().filter(|m| m.nodes.contains_key(&1)).collect();
-    let ok_before = "CREATE (:Ok {uid: 700})";
+    let befores: Vec<Option<St>> = vec![None, Some(St::CreateNode { uid: 700, label: "Ok", v: None }), Some(St::RemoveLabel { uid: 1, label: "A" }), Some(St::SetLabel { uid: 1, label: "Z" }), Some(St::SetLabel { uid: 1, label: "A" }), Some(St::SetProp { uid: 1, val: Some(77), param: false }), Some(St::MatchCreateRel { a: 1, b: 2, ty: "S" }), Some(St::DeleteRel { a: 1, b: 2 })];
     let ok_after = "CREATE (:Ok {uid: 800})";
-    let modes = ["rust_autocommit", "capi_autocommit", "txn_alone", "txn_after_ok", "txn_before_ok", "txn_between"];
+    // modes: 0 = rust auto-commit, 1 = capi auto-commit, 2.. = txn with before[(m-2)/2], after = (m-2)%2
+    let n_modes = 2 + befores.len() * 2;
     let _ = tier;
-    let work: Vec<(usize, usize, usize)> = (0..inits.len()).flat_map(|i| (0..fails.len()).flat_map(move |f| (0..modes.len()).map(move |m| (i, f, m)))).collect();
+    let work: Vec<(usize, usize, usize)> = (0..inits.len()).flat_map(|i| (0..fails.len()).flat_map(move |f| (0..n_modes).map(move |m| (i, f, m)))).collect();
     work.par_iter().for_each(|&(ii, fi, mi)| {
         let init = &inits[ii];
-        let (fname, ftext) = &fails[fi];
-        let mode = modes[mi];
-        // "delete_connected" statements only fail on graphs where node 1 / some node is connected
-        if fname.starts_with("delete") && init.rels.is_empty() {
+        let (fname, ftext, fparams) = &fails[fi];
+        let (before, after): (Option<&St>, bool) = if mi < 2 { (None, false) } else { (befores[(mi - 2) / 2].as_ref(), (mi - 2) % 2 == 1) };
+        let mode = match mi {
+            0 => "rust_autocommit".to_string(),
+            1 => "capi_autocommit".to_string(),
+            _ => format!("txn{}{}", before.map(|b| format!("_after_{}", b.kind())).unwrap_or_default(), if after { "_before_ok" } else { "" }),
+        };
+        let mut expected = init.clone();
+        if let Some(b) = before {
+            if !b.enabled(&expected) {
+                return;
+            }
+            if b.apply(&mut expected).fails {
+                return;
+            }
+        }
+        // the statement must fail on this state, and do so after a write
+        let connected = expected.rels.iter().any(|r| r.src == 1 || r.dst == 1);
+        if fname == &"delete_connected" && !connected {
             return;
         }
-        if fname == &"remove_then_fail" && !init.nodes.contains_key(&2) {
+        if fname == &"delete_second_connected" && expected.rels.is_empty() {
+            return;
+        }
+        // (a relationship created earlier in the same transaction is not visible to the statement: that is C24's finding)
+        if fname == &"delete_rel_then_fail" && !(expected.rels.iter().any(|r| r.src == 1) && init.rels.iter().any(|r| r.src == 1 && expected.rels.contains(r))) {
+            return;
+        }
+        if (fname == &"remove_then_fail" || fname == &"create_rel_then_fail") && !expected.nodes.contains_key(&2) {
             return;
         }
         rep.add_states(1);
@@ -591,44 +691,43 @@ pub fn c13(tier: Tier) -> i32 {
         if build_model(&db, init).is_err() {
             return;
         }
-        let mut expected = init.clone();
         let add_ok = |m: &mut UModel, uid: i64| {
             m.nodes.insert(uid, UNode { labels: BTreeSet::from(["Ok".to_string()]), props: BTreeMap::from([("uid".to_string(), CV::Int(uid))]) });
         };
-        let replay = json!({"engine":"update","init": init.show(), "failing": ftext, "mode": mode});
-        let mk = |class: String, detail: String| Violation { class, kinds: vec![mode.to_string(), fname.to_string()], replay: replay.clone(), detail };
-        let failed: Result<bool, String> = match mode {
-            "rust_autocommit" => Ok(db.write(ftext, &Params::new()).is_err()),
-            _ => {
-                let path = db.dir.join("g");
-                drop(db.db.take());
-                let r = crate::rt::with_hooks(db.hooks.clone(), || -> Result<bool, String> {
-                    let cdb = CDb::open(&path).map_err(|e| e.message)?;
-                    let failed;
-                    if mode == "capi_autocommit" {
-                        failed = cdb.execute_write(ftext, None).is_err();
-                    } else {
-                        let mut txn = cdb.begin_write().map_err(|e| e.message)?;
-                        if mode == "txn_after_ok" || mode == "txn_between" {
-                            txn.query(ok_before, None).map_err(|e| format!("ok statement failed: {}", e.message))?;
-                        }
-                        failed = txn.query(ftext, None).is_err();
-                        if mode == "txn_before_ok" || mode == "txn_between" {
-                            txn.query(ok_after, None).map_err(|e| format!("ok statement failed: {}", e.message))?;
-                        }
-                        txn.commit().map_err(|e| format!("commit: {}", e.message))?;
-                    }
-                    drop(cdb);
-                    Ok(failed)
-                });
-                db.reopen();
-                r
-            }
-        };
-        if mode == "txn_after_ok" || mode == "txn_between" {
-            add_ok(&mut expected, 700);
+        let replay = json!({"engine":"update","init": init.show(), "before": before.map(|b| b.text()), "failing": ftext, "params": fparams, "mode": mode});
+        let mut kinds = vec![if mi < 2 { mode.clone() } else { "txn".to_string() }, fname.to_string()];
+        if let Some(b) = before {
+            kinds.push(format!("after:{}", b.kind()));
         }
-        if mode == "txn_before_ok" || mode == "txn_between" {
+        let mk = |class: String, detail: String| Violation { class, kinds: kinds.clone(), replay: replay.clone(), detail };
+        let failed: Result<bool, String> = if mi == 0 {
+            Ok(db.write(ftext, &params_of(*fparams)).is_err())
+        } else {
+            let path = db.dir.join("g");
+            drop(db.db.take());
+            let r = crate::rt::with_hooks(db.hooks.clone(), || -> Result<bool, String> {
+                let cdb = CDb::open(&path).map_err(|e| e.message)?;
+                let failed;
+                if mi == 1 {
+                    failed = cdb.execute_write(ftext, *fparams).is_err();
+                } else {
+                    let mut txn = cdb.begin_write().map_err(|e| e.message)?;
+                    if let Some(b) = before {
+                        txn.query(&b.text(), None).map_err(|e| format!("ok statement failed: {}", e.message))?;
+                    }
+                    failed = txn.query(ftext, *fparams).is_err();
+                    if after {
+                        txn.query(ok_after, None).map_err(|e| format!("ok statement failed: {}", e.message))?;
+                    }
+                    txn.commit().map_err(|e| format!("commit: {}", e.message))?;
+                }
+                drop(cdb);
+                Ok(failed)
+            });
+            db.reopen();
+            r
+        };
+        if after {
             add_ok(&mut expected, 800);
         }
         match failed {
@@ -655,7 +754,7 @@ pub fn c13(tier: Tier) -> i32 {
             },
         }
     });
-    rep.sample(json!({"failing": fails[1].1, "mode": "txn_between"}));
+    rep.sample(json!({"failing": fails[1].1, "mode": "txn_after_RemoveLabel_before_ok"}));
     rep.finish()
 }
 
@@ -677,8 +776,14 @@ fn c14_statements() -> Vec<(&'static str, String)> {
         ("create_then_detach_delete_new_end", "MATCH (a {uid: 1}) CREATE (a)-[:R]->(x:X {uid: 7}) WITH x DETACH DELETE x".into()),
         ("delete_rel_then_node", "MATCH (a {uid: 1})-[r]->(b) DELETE r, a".into()),
         ("delete_all_nodes", "MATCH (x) DELETE x".into()),
+        ("delete_rel_R_1_2", "MATCH (a {uid: 1})-[r:R]->(b {uid: 2}) DELETE r".into()),
+        ("create_rel_R_1_2", "MATCH (a {uid: 1}), (b {uid: 2}) CREATE (a)-[:R]->(b)".into()),
+        ("create_rel_twice", "MATCH (a {uid: 1}), (b {uid: 2}) CREATE (a)-[:T]->(b), (a)-[:T]->(b)".into()),
     ]
 }
+
+/// Statements used for the longer sequences inside one explicit transaction.
+const C14_TXN_ALPHABET: [&str; 9] = ["delete_rel_R_1_2", "create_rel_R_1_2", "create_rel_twice", "match_create_rel", "match_create_rel_rev", "delete_1", "delete_2", "detach_delete_1", "detach_delete_2"];
 
 /// Endpoint checks through Cypher in both directions and through the storage snapshot.
 fn dangling(db: &QDb) -> Result<Option<String>, String> {
@@ -709,7 +814,7 @@ fn dangling(db: &QDb) -> Result<Option<String>, String> {
 
 pub fn c14(tier: Tier) -> i32 {
     let rep = Report::new("C14", tier);
-    rep.rule("all sequences up to the stated length over 12 statements (CREATE path, MATCH..CREATE relationship in both directions, DELETE / DETACH DELETE of either node, create-then-delete of the new or the old endpoint inside one statement, DELETE r, a, MATCH (x) DELETE x) on all initial graphs of the scope, each statement auto-committed, plus every pair split over one explicit C API transaction; after EVERY commit: every relationship returned by outgoing, incoming and undirected Cypher traversals and by the storage neighbour iterators has both endpoints among the live nodes; a DELETE (without DETACH) of a node that has relationships - including ones created earlier in the same statement or transaction - must fail; non-trivial = sequences containing a delete of a connected node");
+    rep.rule("all sequences up to the stated length over 15 statements (CREATE path, MATCH..CREATE relationship in both directions, DELETE / DETACH DELETE of either node, create-then-delete of the new or the old endpoint inside one statement, DELETE r, a, MATCH (x) DELETE x) on all initial graphs of the scope, each statement auto-committed, plus inside one explicit C API transaction every pair over the whole alphabet and every triple (thorough: quadruple) over a 9-statement sub-alphabet (delete / re-create the same relationship, create it twice, delete / detach-delete either endpoint); after EVERY commit: every relationship returned by outgoing, incoming and undirected Cypher traversals and by the storage neighbour iterators has both endpoints among the live nodes; a DELETE (without DETACH) of a node that has relationships - including ones created earlier in the same statement or transaction - must fail; non-trivial = sequences containing a delete of a connected node");
     let stmts = c14_statements();
     let inits: Vec<UModel> = initial_models().into_iter().filter(|m| m.nodes.len() == 2).collect();
     let depth = tier.pick(2usize, 3);
@@ -727,7 +832,25 @@ pub fn c14(tier: Tier) -> i32 {
         seqs.extend(next.iter().cloned());
         frontier = next;
     }
-    let work: Vec<(usize, &Vec<usize>, bool)> = (0..inits.len()).flat_map(|i| seqs.iter().flat_map(move |s| [(i, s, false), (i, s, true)])).filter(|(_, s, txn)| !*txn || s.len() == 2).collect();
+    // inside one transaction: every pair over the whole alphabet, every triple (thorough: quadruple) over the sub-alphabet
+    let sub: Vec<usize> = C14_TXN_ALPHABET.iter().map(|n| stmts.iter().position(|(m, _)| m == n).expect("statement")).collect();
+    let mut txn_seqs: Vec<Vec<usize>> = seqs.iter().filter(|s| s.len() == 2).cloned().collect();
+    let mut fr: Vec<Vec<usize>> = vec![vec![]];
+    for len in 1..=tier.pick(3usize, 4) {
+        let mut next = Vec::new();
+        for s in &fr {
+            for &i in &sub {
+                let mut n = s.clone();
+                n.push(i);
+                next.push(n);
+            }
+        }
+        if len >= 3 {
+            txn_seqs.extend(next.iter().cloned());
+        }
+        fr = next;
+    }
+    let work: Vec<(usize, &Vec<usize>, bool)> = (0..inits.len()).flat_map(|i| seqs.iter().map(move |s| (i, s, false)).chain(txn_seqs.iter().map(move |s| (i, s, true)))).collect();
     rep.set("sequences", json!(work.len()));
     work.par_iter().for_each(|(ii, seq, in_txn)| {
         let init = &inits[*ii];
